@@ -28,11 +28,13 @@ Definition field_events (i : instr) : list ev :=
   | IBrTable ss d => map ESeqRef (visited_seqs_BrTable ss d)
   end.
 
-(* Instr::visit = visitor.visit_<variant>(e); e.visit(visitor).  [hooks_overridden]:
-   the visitor overrides the per-variant hooks with bodies that do not recurse;
-   otherwise the default hook body runs ([recurses] says whether it re-visits the fields) *)
+(* Instr::visit = visitor.visit_<variant>(e); [e.visit(visitor)] : the bracketed part is present
+   iff [visit_fields_after_hook].  [hooks_overridden]: the visitor overrides the per-variant hooks
+   with bodies that do not recurse; otherwise the default hook body runs ([recurses] says whether it
+   visits the fields) *)
 Definition instr_visit (recurses hooks_overridden : bool) (i : instr) : list ev :=
-  EHook i :: (if negb hooks_overridden && recurses then field_events i else []) ++ field_events i.
+  EHook i :: (if negb hooks_overridden && recurses then field_events i else []) ++
+             (if visit_fields_after_hook then field_events i else []).
 
 Definition seq_visit (q : iseq) : list ev :=
   match sq_ty q with ST_Multi ty => [ESeqType ty] | ST_Simple _ => [] end.
